@@ -63,15 +63,15 @@ def template(kind, rr):
     y = Q.QScaleShift(weight_quantizer=w(), bias_quantizer=bq(), name="ss")(y)
     y = Q.QDense(2, kernel_quantizer=w(), bias_quantizer=bq(), name="d2")(y)
   elif kind == "adaptive":
+    # both flavours in every model, every option away from its default (a key dropped from get_config only shows then)
     i = keras.Input((3,))
     y = Q.QDense(3, kernel_quantizer=w(), bias_quantizer=bq(), name="d1")(i)
-    if rr.random() < 0.5:
-      y = Q.QAdaptiveActivation("quantized_relu", rr.choice([4, 6]), relu_neg_slope=rr.choice([0.0, 0.25]), relu_upper_bound=rr.choice([None, 0.5, 2.0]),
-                                po2_rounding=rr.choice([False, True]), per_channel=rr.choice([False, True]), name="qa")(y)
-    else:
-      y = Q.QAdaptiveActivation("quantized_bits", rr.choice([4, 8]), symmetric=rr.choice([True, False]), po2_rounding=rr.choice([False, True]),
-                                per_channel=rr.choice([False, True]), ema_decay=rr.choice([0.9999, 0.9]), quantization_delay=rr.choice([0, 5]), name="qa")(y)
+    y = Q.QAdaptiveActivation("quantized_relu", rr.choice([4, 6]), relu_neg_slope=rr.choice([0.125, 0.25]), relu_upper_bound=rr.choice([0.5, 2.0]),
+                              po2_rounding=True, per_channel=rr.choice([False, True]), quantization_delay=3, ema_decay=0.9, name="qa")(y)
     y = Q.QDense(2, kernel_quantizer=w(), bias_quantizer=bq(), name="d2")(y)
+    y = Q.QAdaptiveActivation("quantized_bits", rr.choice([4, 8]), symmetric=False, po2_rounding=rr.choice([False, True]),
+                              per_channel=rr.choice([False, True]), ema_decay=0.99, quantization_delay=5, ema_freeze_delay=rr.choice([None, 7]), name="qb")(y)
+    y = Q.QDense(2, kernel_quantizer=w(), bias_quantizer=bq(), name="d3")(y)
   else:
     raise ValueError(kind)
   return keras.Model(i, y)
